@@ -352,3 +352,46 @@ def expected():
         "#lagrange": (det, dot(n, n)),
         "#J": J,
     }
+
+
+def _flat(x):
+    if isinstance(x, Unset):
+        x = x.value
+    if isinstance(x, B) and x.k == 1:
+        return list(x.rows[0]) if x.vec else [x.rows[0]]
+    if isinstance(x, M):
+        return [c for row in x.ent for c in row]
+    raise AnalysisError("geometry: attribute of unexpected shape")
+
+
+def equivariance(got):
+    """Translation and scaling behaviour of the computed attributes, by exact substitution in the symbolic results.
+    Returns [(description, holds)]."""
+    out = []
+    t = [V.atom("t%d" % c) for c in range(3)]
+    s = V.atom("s")
+    tr = {"v%d%d" % (j, c): V.atom("v%d%d" % (j, c)) + t[c] for j in range(3) for c in range(3)}
+    sc = {"v%d%d" % (j, c): V.atom("v%d%d" % (j, c)) * s for j in range(3) for c in range(3)}
+    degree = {"_volumes": 2, "_integration_elements": 2, "_diameters": 1, "_normals": 0, "_jacobians": 1, "_jacobian_inverse_transposed": -1, "_centroids": 1}
+    for attr, deg in degree.items():
+        if attr not in got:
+            out.append(("%s assigned" % attr, False))
+            continue
+        vals = _flat(got[attr])
+        moved = [v.subs(tr) for v in vals]
+        if attr == "_centroids":
+            ok_t = all(m.eq(v + t[c]) for c, (m, v) in enumerate(zip(moved, vals)))
+            out.append(("centroids move with the translation", ok_t))
+        else:
+            out.append(("%s invariant under translation (depends on vertex differences only)" % attr[1:], all(m.eq(v) for m, v in zip(moved, vals))))
+        scaled = [v.subs(sc) for v in vals]
+        # compare squares where a square root of s^2 appears: |s| = s for s > 0
+        fac = V.const(1)
+        for _ in range(abs(deg)):
+            fac = fac * s
+        want = [(v * fac if deg >= 0 else v / fac) for v in vals]
+        # rational attributes compare directly; where |x| = sqrt(x.x) occurs, sqrt(s^2 p) is a different atom than
+        # s sqrt(p), so squares are compared (s > 0)
+        ok_s = all(a.eq(b) or (a * a).eq(b * b) for a, b in zip(scaled, want))
+        out.append(("%s homogeneous of degree %d under scaling (squares compared; s > 0)" % (attr[1:], deg), ok_s))
+    return out
